@@ -84,14 +84,22 @@ class no_pattern_encoders:
     """context: encoder selection without the pattern encoders (used to attribute a violation to them or not)"""
 
     def __enter__(self):
+        import os
         import adsg_core.optimization.assign_enc.selector as sm
         self.sm = sm
         self.saved = list(sm.PATTERN_ENCODERS)
         sm.PATTERN_ENCODERS[:] = []
+        # (own cache directory: the selection cache would otherwise hand back the cached pattern-encoder selection)
+        self.xdg = os.environ.get('XDG_CACHE_HOME')
+        if self.xdg:
+            os.environ['XDG_CACHE_HOME'] = os.path.join(self.xdg, 'no_pattern')
         return self
 
     def __exit__(self, *exc):
+        import os
         self.sm.PATTERN_ENCODERS[:] = self.saved
+        if self.xdg:
+            os.environ['XDG_CACHE_HOME'] = self.xdg
         return False
 
 
